@@ -26,9 +26,10 @@ m = {
  "not_applicable": [{"property_id": k, "reason": v} for k, v in sorted(NOT_APPLICABLE.items())],
  "notes": "All claims are at level 'other': structural necessary conditions of each property decided for every CFG path / call site / table member of the current tree; the behavioural remainder is listed per check in level_note and in evidence.coverage.not_decided. See DESIGN.md.",
 }
-COMMON = (" The tree is first put into a normal form (helpers the rules do not know are inlined source-to-source into their callers, semantics-preserving; the tree itself is untouched), "
-          "and every reachability query is path-sensitive in the small sense of DESIGN.md §14 (constant flags, nil-ness of result temporaries, re-tested values, pure error predicates), "
-          "so that the verdict does not depend on how the code is split into functions or how a condition is spelled.")
+COMMON = (" Every check also carries rule R<n>.0 over the functions its own rules resolve as anchors: once the error of a step was tested non-nil, a nil-error return reachable only through that failure must lie behind a benign-error predicate of that error (IsConflict, IsNotFound, …) — a failed step of the mechanism is never turned into success (DESIGN.md §18.3)."
+          " The tree is first put into a normal form, source to source and meaning-preserving, the tree itself untouched (DESIGN.md §14.1, §18.1): helpers the reference list does not know (also generic ones, local closures, methods reached through method-value locals) are inlined into their callers, loops over local literal tables are written out row by row, reads of immutable package-level lookup tables become key comparisons, local structs that are only used field by field become one local per field; a stage whose output does not type-check is discarded. "
+          "Every reachability query is path-sensitive in the small sense of DESIGN.md §14.2/§18.2 (constant flags, nil-ness of result temporaries, re-tested values, pure error predicates, phis refined by feasibility), "
+          "so that the verdict does not depend on how the code is split into functions, tables or carrier structs, or how a condition is spelled.")
 ADDENDA = {
  "C01": " Round 3: (R1.8) RenderComposedResourceMetadata stamps the template-name annotation on every path that names the resource, and the P&T composer renders it after the from-XR patches.",
  "C02": " Round 3: an ApplyOption constructed in this repository that performs a write must be ordered after the controller guard in the option list.",
